@@ -196,6 +196,12 @@ def f4(ctx):
         # `true` / `Some(..)`, conjoined with the returned comparison for `return a >= b` (a `&&` chain ends like that), nothing for `false` / `None`
         import dnf as D
 
+        def lit(f):
+            # `a.checked_sub(b)` is Some exactly when b <= a: that comparison is emitted next to the discriminant fact and carries it
+            if f[0] == "discr" and tag(f[1]) == "call" and isinstance(f[1][1], str) and f[1][1].endswith("checked_sub"):
+                return None
+            return strip(f)
+
         def accept_dnf(b_, ev_, r_, is_accept, is_reject):
             out = []
             n_acc = 0
@@ -205,7 +211,7 @@ def f4(ctx):
                 v = r["value"]
                 if is_reject(v):
                     continue
-                base = D.block_dnf(ev_, r_, b_, r["bb"], lit=strip)
+                base = D.block_dnf(ev_, r_, b_, r["bb"], lit=lit)
                 if base is None:
                     return None, 0
                 if is_accept(v):
